@@ -9,6 +9,7 @@
 
 mod core;
 mod engines;
+mod models;
 mod plan;
 
 use crate::core::runner::{run_batch, BatchCfg};
